@@ -557,6 +557,18 @@ func (x *Env) step(ts *taskState, oi int, op *Op) {
 		return
 	}
 
+	if op.K == "burst" {
+		if x.useVa {
+			x.Va.SetAll(x.R.NE+x.R.NS, true)
+			defer x.Va.SetAll(x.R.NE+x.R.NS, false)
+		}
+		x.burst(ts, oi, op)
+		if !x.abort {
+			x.observe(ts, oi, op, -1, -1)
+		}
+		return
+	}
+
 	// ---- resolve arguments
 	var bs [][]byte
 	var bcopies [][]byte
@@ -1447,6 +1459,61 @@ func (x *Env) returns(ts *taskState, oi int, op *Op, r int, isE bool) bool {
 	}
 	ts.extra = append(ts.extra, o...)
 	return x.retain(ts, oi, op, "Order", o)
+}
+
+// burst is a caller action: a long series of encoding calls in a row (C15). A
+// library that carves its results out of a slab or a ring which it rewinds
+// after some tens of thousands of results hands out memory it has handed out
+// before; no ordinary history is long enough to see that. The first results, a
+// sample of the later ones and the last ones are kept like every other returned
+// slice (freshness now, stability later); every other result is only checked
+// for overlap with the kept ones.
+func (x *Env) burst(ts *taskState, oi int, op *Op) {
+	n := int(op.U)
+	if len(ts.E) == 0 {
+		return
+	}
+	e1, e2 := ts.E[op.R%len(ts.E)], ts.E[(op.R+1)%len(ts.E)]
+	var sc *secp.Scalar
+	if len(ts.S) > 0 {
+		sc = ts.S[op.R%len(ts.S)]
+	}
+	for i := 0; i < n && !x.abort; i++ {
+		var b []byte
+		var what string
+		switch i % 4 {
+		case 0:
+			b, what = e1.Encode(), "Element.Encode"
+		case 1:
+			b, what = e2.EncodeUncompressed(), "Element.EncodeUncompressed"
+		case 2:
+			if sc != nil {
+				b, what = sc.Encode(), "Scalar.Encode"
+			} else {
+				b, what = e2.Encode(), "Element.Encode"
+			}
+		default:
+			b, what = e1.XCoordinate(), "Element.XCoordinate"
+		}
+		if i < 64 || i%512 == 0 || i >= n-32 {
+			if x.retain(ts, oi, op, fmt.Sprintf("%s (call %d of a burst of %d)", what, i, n), b) {
+				return
+			}
+			continue
+		}
+		if cap(b) == 0 {
+			continue
+		}
+		p := uintptr(unsafe.Pointer(unsafe.SliceData(b)))
+		rg := MemRange{p, p + uintptr(cap(b))}
+		for k := range ts.rets {
+			if rg.Overlaps(ts.rets[k].r) {
+				x.fail(ts, oi, op, "M-fresh", what, fmt.Sprintf("slice returned by %s (call %d of a burst of %d) shares memory with the slice returned earlier by %s (op #%d)", what, i, n, ts.rets[k].what, ts.rets[k].op))
+				return
+			}
+		}
+	}
+	x.St.Probes["encode_burst_calls"] += uint64(n)
 }
 
 // retain keeps a returned slice alive and checks that its backing array is
